@@ -390,7 +390,7 @@ theorem close_code_ping_pong_too_long (c : Conf) (f : Flags) (hfin : f.fin = tru
       opPing, opPong, opClose, opBinary, opText, opContinuation]
 
 example : (wsHandleFrame exampleConf { fin := true, opcode := opPong, mask := true } (List.replicate 126 0)).actions =
-    handleError exampleConf closeProtocolError := by decide
+    handleError exampleConf closeProtocolError := by decide +kernel
 
 /-- a close frame with a one byte payload → 1002 -/
 theorem close_code_close_length_one (c : Conf) (f : Flags) (hfin : f.fin = true) (hrsv : f.rsv = 0)
